@@ -146,6 +146,17 @@ class Ctx:
         cur().assume(z3.Or(x.t == 0, x.t == 1))
         return self.mk_bool(self.mk_lincomb(x, self.g.operand(x, name, tie=tie)))
 
+    def client(self, src, **bindings):
+        """A client program over the API, given as source text and run through the interpreter
+        (so that frames, line numbers and locals are those of an ordinary user function)."""
+        import ast, types
+        from .interp import Interp, Frame
+        mod = types.ModuleType("pyvc_client")
+        mod.__dict__.update(bindings)
+        tree = ast.parse(src, filename="<client>")
+        Interp(self.w).exec_block(tree.body, Frame("module", mod, None, set()))
+        return mod.prog
+
     def public_int(self, name):
         k = SymInt(z3.Int("k_" + name))
         self.g.publics.append(k.t)
